@@ -1,0 +1,8 @@
+//go:build verif
+
+package server
+
+// vfNoBackground, when set by a verification harness, keeps the background
+// goroutines of a database (clock, sweepers, persistence channel) from
+// starting, so that the harness can drive them deterministically.
+var vfNoBackground = false
